@@ -93,6 +93,9 @@ MUTATORS = {
     ],
     "C13": [
         ("drop normalized", r"quimb/tensor/(tnag/core|tn1d/core|tn2d/core|tn3d/core)\.py$", r"^(\s+)normalized=normalized,\s*$", None),
+        ("environment stored without its exponent", r"quimb/tensor/tn2d/core\.py$", r"^(\s+)tn_env_i\.exponent = tn\.exponent - exponent0\s*$", None),
+        ("sites via a set", r"quimb/tensor/tnag/core\.py$", r"^(\s+)k_inds = tuple\(map\(self\.site_ind, keep\)\)\s*$", r"\1keep = frozenset(keep)\n\1k_inds = tuple(map(self.site_ind, keep))"),
+        ("cache key without where", r"quimb/tensor/tnag/core\.py$", r"^(\s+)info\[\"expecs\"\]\[loop, where\] = expec_loop, norm_loop\s*$", r'\1info["expecs"][loop] = expec_loop, norm_loop'),
         ("drop rehearse", r"quimb/tensor/(tnag/core|tn1d/core|tn2d/core|tn3d/core)\.py$", r"^(\s+)rehearse=rehearse,\s*$", None),
     ],
     "C14": [
